@@ -297,6 +297,34 @@ prop(
     TRUST + ["book/src/basics/operations.md is the oracle for the documented precedence"],
 )
 
+from oblig import rule_nodrop, rule_oblig  # noqa: E402
+from quote import rule_quote  # noqa: E402
+
+PROPERTIES["C01"]["rules"] += [
+    ("OBLIG.sound", lambda ctx: rule_oblig(ctx.lib, select=lambda k: "no-lhs~rhs" not in k, min_rows=27)),
+    ("NODROP", lambda ctx: rule_nodrop(ctx.lib)),
+]
+PROPERTIES["C01"]["explanation"] = (
+    "Necessary-condition clauses of C01: (OBLIG, soundness side) for every construct whose VM operation can raise a unit incompatibility or pops a typed value "
+    "(+, -, ->, the four ordering comparisons, ==/!=, &&/||, !, unary minus, factorial, ^ exponent, if/then/else, list elements, calls through proper functions and function values, "
+    "annotations, return types, assert/assert_eq) the type checker emits the matching constraint between the right sub-terms; (NODROP) ConstraintSet::add keeps every constraint that is not "
+    "trivially satisfied and solve() succeeds only with no constraint left, so a result discarded with .ok() still has to be solved; "
+    + PROPERTIES["C01"]["explanation"].split(": ", 1)[1]
+)
+PROPERTIES["C02"]["rules"] += [
+    ("OBLIG", lambda ctx: rule_oblig(ctx.lib)),
+    ("NODROP", lambda ctx: rule_nodrop(ctx.lib)),
+]
+PROPERTIES["C02"]["explanation"] = (
+    "Necessary-condition clauses of C02: (OBLIG) equality constraints are emitted for exactly the constructs listed in the property (addition, subtraction, comparison, conversion, conditional branches, "
+    "list elements, annotations, function arguments, return types) and NOT between the operands of *, / and ^ (30 relation rows); (NODROP) no emitted constraint can be dropped; "
+    + PROPERTIES["C02"]["explanation"].split(": ", 1)[1]
+)
+PROPERTIES["C21"]["rules"] += [("OBLIG.assert", lambda ctx: rule_oblig(ctx.lib, select=lambda k: k.startswith("assert"), min_rows=2))]
+PROPERTIES["C21"]["explanation"] += " (OBLIG) The checker constrains assert's argument to Bool and all assert_eq arguments to one type (dimension types in the 3-argument form), so the procedures' unsafe_as_* extractions cannot panic."
+PROPERTIES["C15"]["rules"] += [("QUOTE", lambda ctx: rule_quote(ctx.lib))]
+PROPERTIES["C15"]["explanation"] += " (QUOTE) Every user string payload (string parts, @name/@url/@description/@example) reaches markup::string only through escape_numbat_string and between quote operators, so the echoed text re-reads as the same string literal."
+
 NOT_APPLICABLE = {
     "C03": "numerical agreement of conversion factors over 500 units is a statement about run-time values; no structural clause is a necessary condition that is not already covered under C04/C11/C12 (static analysis cannot bound the arithmetic)",
     "C14": "a statement about the decimal rendering of every f64 under every format setting; the code delegates to pretty_dtoa/num_format and no structural clause of Number::pretty_print_with_dtoa_config can be decided without evaluating it",
